@@ -466,9 +466,11 @@ func c15MixedGraph(rng *Rng) c15Graph {
 		var head strings.Builder
 		var pre []string
 		used := map[string]bool{}
-		ne := rng.Intn(3)
+		// external imports bind a name from a very small pool, so that several wrapped files hoist same-named imports
+		ne := 1 + rng.Intn(3)
+		ipool := pool[:2+rng.Intn(2)]
 		for k := 0; k < ne; k++ {
-			l := rng.Pick(pool)
+			l := rng.Pick(ipool)
 			if used[l] {
 				continue
 			}
@@ -476,10 +478,10 @@ func c15MixedGraph(rng *Rng) c15Graph {
 			pre = append(pre, l)
 			pkg := fmt.Sprintf("ext-%d-%d", i, k)
 			ext[pkg] = true
-			switch rng.Intn(3) {
-			case 0:
+			switch rng.Intn(4) {
+			case 0, 1:
 				fmt.Fprintf(&head, "import %s from %q;\n", l, pkg)
-			case 1:
+			case 2:
 				fmt.Fprintf(&head, "import * as %s from %q;\n", l, pkg)
 			default:
 				fmt.Fprintf(&head, "import {%s} from %q;\n", l, pkg)
@@ -553,6 +555,11 @@ func c15Bundles(r *Run, pool *Pool, st *c15Stats, prelude string) {
 			vs = []c15BundleVariant{variants[a], variants[b]}
 			if a == b {
 				vs = vs[:1]
+			}
+			if gr.Static {
+				// static-only graphs cost one build and one parse per variant: always include the plain esm bundle
+				// (imports hoisted out of CommonJS wrappers keep ESM syntax only there)
+				vs = append([]c15BundleVariant{variants[0]}, vs...)
 			}
 		}
 		var refTrace *ExecResult
